@@ -174,12 +174,8 @@ func TestC06(t *testing.T) {
 	ev.Check(t, "c06_wl", ev.N(320, 3200), func(t *rapid.T) c06WL {
 		// bias to lists with uncapitalisable / pre-capitalised words under one/random
 		w := genSmallWL(t, ev.Pick(20000, 200000), true, nil)
-		if rapid.IntRange(0, 9).Draw(t, "odd_scheme") == 0 {
-			// spellings the library does not define: whatever it does with them,
-			// the reported entropy must not overstate
-			w.Scheme = rapid.SampledFrom([]string{"Random", "RANDOM", " one", "One", "random ", "weird", "", "ALL"}).Draw(t, "odd")
-			return c06WL{w}
-		}
+		// (only the five documented scheme names: what another spelling means is
+		// not specified - an implementation may fold case or refuse it)
 		if rapid.IntRange(0, 1).Draw(t, "force_caps") == 0 {
 			w.Scheme = rapid.SampledFrom([]string{"one", "random"}).Draw(t, "capscheme")
 			if w.Length > 3 {
